@@ -18,9 +18,8 @@ void add_vmessage (struct object_s *, char *, ...) __attribute__ ((format (print
 #ifdef __cplusplus
 }
 #endif
+#ifndef __cplusplus	/* the C++ units (timer, sync, rc) do not use outbuf */
 #include "src/outbuf.h"
-#ifdef __cplusplus
-extern "C"
-#endif
 void outbuf_addv (outbuffer_t *, const char *, ...) __attribute__ ((format (printf, 2, 3)));
+#endif
 #endif
